@@ -223,11 +223,44 @@ def run(ctx, chk, tier="quick"):
                     and isinstance(e.args[0], ast.Name) and isinstance(g.target, ast.Name) and e.args[0].id == g.target.id \
                     and isinstance(g.iter, ast.Name) and g.iter.id == p and not g.ifs:
                 array_ok = True
-    chk.ob("C15.O3", scalar_ok and array_ok, where_of(call, call.node),
-           "scalar path %s; array path %s" % ("-> call_scalar(level)" if scalar_ok else "NOT call_scalar(level)",
-                                             "maps call_scalar over every element" if array_ok else "is NOT call_scalar mapped over the elements"),
-           "scalar and array arguments give the same values", key="SplineTransmissivity.__call__|paths",
-           why="a filtered or differently computed array path disagrees with the scalar one")
+    # other recognised mappings: map(self.call_scalar, x); np.vectorize(self.call_scalar, otypes=[float])(x)
+    vect_no_otypes = None
+    unknown_array_path = None
+    if not array_ok:
+        for r in rets:
+            v = r.value
+            if isinstance(v, ast.Call) and dotted_name(v.func) == "self.call_scalar":
+                continue
+            inner = v
+            while isinstance(inner, ast.Call) and (full_call_name(mod, inner) or "").split(".")[-1] in ("array", "asarray", "list", "fromiter") and inner.args:
+                inner = inner.args[0]
+            if isinstance(inner, ast.Call) and isinstance(inner.func, ast.Name) and inner.func.id == "map" and len(inner.args) == 2 \
+                    and dotted_name(inner.args[0]) == "self.call_scalar" and isinstance(inner.args[1], ast.Name) and inner.args[1].id == p:
+                array_ok = True
+            elif isinstance(inner, ast.Call) and isinstance(inner.func, ast.Call) and (full_call_name(mod, inner.func) or "").endswith("vectorize") \
+                    and inner.func.args and dotted_name(inner.func.args[0]) == "self.call_scalar" and len(inner.args) == 1 \
+                    and isinstance(inner.args[0], ast.Name) and inner.args[0].id == p:
+                ot = [k for k in inner.func.keywords if k.arg == "otypes"]
+                if ot and "float" in ast.unparse(ot[0].value):
+                    array_ok = True
+                else:
+                    vect_no_otypes = inner
+            else:
+                unknown_array_path = v
+    if vect_no_otypes is not None:
+        chk.ob("C15.O3", False, where_of(call, vect_no_otypes), "array path = %s" % ast.unparse(vect_no_otypes),
+               "call_scalar mapped over the elements with a floating-point result type",
+               key="SplineTransmissivity.__call__|paths",
+               why="np.vectorize without otypes takes the dtype from the first result: an integer T_min at or below the lowest knot truncates every later value")
+    elif not array_ok and unknown_array_path is not None and scalar_ok and not any(
+            isinstance(x, (ast.ListComp, ast.GeneratorExp)) for x in ast.walk(unknown_array_path)):
+        chk.indeterminate("C15.O3", where_of(call, unknown_array_path), "array path of unrecognised form: %s" % ast.unparse(unknown_array_path)[:80])
+    else:
+        chk.ob("C15.O3", scalar_ok and array_ok, where_of(call, call.node),
+               "scalar path %s; array path %s" % ("-> call_scalar(level)" if scalar_ok else "NOT call_scalar(level)",
+                                                 "maps call_scalar over every element" if array_ok else "is NOT call_scalar mapped over the elements"),
+               "scalar and array arguments give the same values", key="SplineTransmissivity.__call__|paths",
+               why="a filtered or differently computed array path disagrees with the scalar one")
 
     # ---------------- O4 units
     try:
